@@ -16,10 +16,19 @@ Require Import Verif.Lib.Wire Verif.Lib.Utf8 Verif.Model.C19_base Verif.Gen.Fact
 Open Scope N_scope.
 
 (* ------------------------------------------------------------------ the reference object *)
-Definition ref_obj (c : cls) (i : input) : obj :=
+Definition ref_obj_x (c : cls) (x : xinput) : obj :=
+  let i := x_in x in
   mkObj (c_code c) (c_title c) (expl_of c i) (tmpl_of c i) (is_custom c i) (c_empty c) (status_of c)
         (i_detail i) (i_comment i) (headers_of c i)
-        (if c_empty c then [] else t_html) (if c_empty c then [] else cs_utf8) [].
+        (if c_empty c then [] else kw_ctype (kw_of x)) (if c_empty c then [] else kw_charset (kw_of x)) [] (x_fmt x).
+Definition ref_obj (c : cls) (i : input) : obj := ref_obj_x c (core i).
+
+(* without keywords the constructor leaves WebOb's default: text/html; charset=UTF-8 *)
+Lemma ref_obj_core c i :
+  ref_obj c i = mkObj (c_code c) (c_title c) (expl_of c i) (tmpl_of c i) (is_custom c i) (c_empty c) (status_of c)
+                      (i_detail i) (i_comment i) (headers_of c i)
+                      (if c_empty c then [] else t_html) (if c_empty c then [] else cs_utf8) [] None.
+Proof. reflexivity. Qed.
 
 Ltac split_ifs :=
   repeat match goal with
@@ -27,22 +36,32 @@ Ltac split_ifs :=
          | |- context [match ?x with Some _ => _ | None => _ end] => destruct x eqn:?
          end.
 
-Theorem gen_obj_is_model c i : gen_obj c i = ref_obj c i.
+Theorem gen_obj_is_model_x c x : gen_obj_x c x = ref_obj_x c x.
 Proof.
-  unfold gen_obj, ref_obj, gen_move_init, gen_init, set_expl, expl_of, tmpl_of, is_custom, headers_of, status_of, obj_class.
-  destruct c as [n code title expl tmpl dflt empty move]; destruct i as [cl d cm ex loc hs en tm ofs].
+  unfold gen_obj_x, ref_obj_x, gen_move_init, gen_forbidden_init, gen_init, set_expl, expl_of, tmpl_of, is_custom, headers_of, status_of, obj_class, kw_of.
+  destruct c as [n code title expl tmpl dflt empty move]; destruct x as [[cl d cm ex loc hs en tm ofs] f ck cs].
   cbn [c_name c_code c_title c_expl c_tmpl c_default_tmpl c_empty c_move i_cls i_detail i_comment i_expl i_location
        i_headers i_environ i_tmpl i_offers ob_code ob_title ob_expl ob_tmpl ob_tmpl_custom ob_empty ob_status ob_detail
-       ob_comment ob_headers ob_ctype ob_charset ob_body].
-  destruct move, empty, dflt, ex, tm, hs; reflexivity.
+       ob_comment ob_headers ob_ctype ob_charset ob_body ob_formatter x_in x_fmt x_ctype_kw x_charset_kw].
+  destruct (mem_text n forbidden_init_classes), move, empty, dflt, ex, tm, hs, f, ck, cs; reflexivity.
 Qed.
+Theorem gen_obj_is_model c i : gen_obj c i = ref_obj c i.
+Proof. apply gen_obj_is_model_x. Qed.
 
 (* ------------------------------------------------------------------ prepare *)
 Definition set_resp (o : obj) (ct cs body : text) : obj :=
   mkObj (ob_code o) (ob_title o) (ob_expl o) (ob_tmpl o) (ob_tmpl_custom o) (ob_empty o) (ob_status o)
-        (ob_detail o) (ob_comment o) (ob_headers o) ct cs body.
+        (ob_detail o) (ob_comment o) (ob_headers o) ct cs body (ob_formatter o).
 
 (* the reference: prepare of Model/C19.v under the specification policy, on the object *)
+Definition ref_prepare_x (c : cls) (x : xinput) (o : obj) : res obj :=
+  if c_empty c then Ok o
+  else match pick_branch (chosen_type (x_in x)) (p_branches spec_policy) with
+       | Some b => rbind (page_text_x spec_policy b c x) (fun page =>
+                     rmap (fun bytes => set_resp o (b_ctype b) (if b_charset_none b then [] else cs_utf8) bytes)
+                          (utf8_bytes page))
+       | None => Ok o
+       end.
 Definition ref_prepare (c : cls) (i : input) (o : obj) : res obj :=
   if c_empty c then Ok o
   else match pick_branch (chosen_type i) (p_branches spec_policy) with
@@ -51,6 +70,20 @@ Definition ref_prepare (c : cls) (i : input) (o : obj) : res obj :=
                           (utf8_bytes page))
        | None => Ok o
        end.
+
+Lemma page_text_x_unfold P b c x :
+  page_text_x P b c x =
+  rbind (substitute (tmpl_of c (x_in x)) (build_args P b c (x_in x) (is_custom c (x_in x))))
+        (page_of_x (x_fmt x) (i_environ (x_in x)) b c).
+Proof. reflexivity. Qed.
+
+(* no formatter: the core model *)
+Lemma page_text_x_core P b c i ck cs : page_text_x P b c (mkX i None ck cs) = page_text P b c i.
+Proof. reflexivity. Qed.
+Lemma ref_prepare_x_core c i ck cs o : ref_prepare_x c (mkX i None ck cs) o = ref_prepare c i o.
+Proof. reflexivity. Qed.
+Lemma prepare_x_core P i ck cs : prepare_x P (mkX i None ck cs) = prepare P i.
+Proof. reflexivity. Qed.
 
 Lemma rbind_cong {A B} (r r' : res A) (f f' : A -> res B) :
   r = r' -> (forall x, f x = f' x) -> rbind r f = rbind r' f'.
@@ -67,8 +100,9 @@ Proof. destruct l; reflexivity. Qed.
 Ltac tail := repeat (rewrite ?rbind_assoc, ?rmap_rbind; apply rbind_cong; [reflexivity|intros ?]); reflexivity.
 
 (* the object fields of [ref_obj] (and of an object that differs in content type only) *)
-Definition fresh_like (c : cls) (i : input) (o : obj) : Prop :=
-  exists ct, o = set_resp (ref_obj c i) ct (if c_empty c then [] else cs_utf8) [].
+Definition fresh_like_x (c : cls) (x : xinput) (o : obj) : Prop :=
+  exists ct cs, o = set_resp (ref_obj_x c x) ct cs [].
+Definition fresh_like (c : cls) (i : input) (o : obj) : Prop := fresh_like_x c (core i) o.
 
 Ltac env_atoms k :=
   repeat match goal with
@@ -76,14 +110,14 @@ Ltac env_atoms k :=
          | |- context [memN ?x k] => destruct (memN x k) eqn:?
          end.
 
-Theorem gen_prepare_is_model neg c i o :
-  fresh_like c i o ->
-  i_offers i = neg (env_get accept_key accept_default (i_environ i)) offers ->
-  gen_prepare neg o (i_environ i) = ref_prepare c i o.
+Theorem gen_prepare_is_model_x neg c x o :
+  fresh_like_x c x o ->
+  i_offers (x_in x) = neg (env_get accept_key accept_default (i_environ (x_in x))) offers ->
+  gen_prepare neg o (i_environ (x_in x)) = ref_prepare_x c x o.
 Proof.
-  intros [ct ->] Hoff. unfold gen_prepare, ref_prepare, chosen_type. rewrite Hoff.
-  unfold set_resp, ref_obj.
-  cbn [ob_code ob_title ob_expl ob_tmpl ob_tmpl_custom ob_empty ob_status ob_detail ob_comment ob_headers ob_ctype ob_charset ob_body negb is_nil].
+  intros [ct [cs0 ->]] Hoff. unfold gen_prepare, ref_prepare_x, chosen_type. rewrite Hoff.
+  unfold set_resp, ref_obj_x. destruct x as [i fm ck cs1]. cbn [x_in x_fmt] in *.
+  cbn [ob_code ob_title ob_expl ob_tmpl ob_tmpl_custom ob_empty ob_status ob_detail ob_comment ob_headers ob_ctype ob_charset ob_body ob_formatter negb is_nil].
   rewrite (hd_snoc fallback_type (@nil N)).
   unfold offers, fallback_type, accept_key, accept_default, t_html, t_json, t_plain.
   destruct (c_empty c) eqn:Hem; [reflexivity|].
@@ -101,7 +135,8 @@ Proof.
       end.
   all: cbv beta iota.
   (* in each form: truth of the comment, custom template or not *)
-  all: rewrite page_text_unfold, build_args_spec; unfold base_args, html_comment_of, truthy, page_of;
+  all: rewrite page_text_x_unfold, build_args_spec; cbn [x_in x_fmt]; destruct fm as [fm|];
+       unfold base_args, html_comment_of, truthy, page_of_x, page_of;
        cbn [b_esc b_br b_cpre b_csuf b_comment_escaped maybe_esc esc_apply b_page b_ctype b_charset_none];
        destruct (or_empty (i_comment i)) eqn:Ecm; cbn [negb is_nil]; rewrite ?app_nil_l, ?app_nil_r;
        destruct (is_custom c i) eqn:Hcu.
@@ -125,6 +160,12 @@ Proof.
 Qed.
 
 (* an object that already carries a body is left alone (and empty_body classes never render) *)
+Theorem gen_prepare_is_model neg c i o :
+  fresh_like c i o ->
+  i_offers i = neg (env_get accept_key accept_default (i_environ i)) offers ->
+  gen_prepare neg o (i_environ i) = ref_prepare c i o.
+Proof. intros H Hoff. exact (gen_prepare_is_model_x neg c (core i) o H Hoff). Qed.
+
 Theorem gen_prepare_stored neg o env : ob_body o <> [] -> gen_prepare neg o env = Ok o.
 Proof.
   intros H. unfold gen_prepare. destruct (ob_body o) as [|x r] eqn:E; [congruence|].
@@ -135,35 +176,120 @@ Theorem gen_call_is_prepare neg o env :
   gen_call neg o env = rbind (gen_prepare neg o env) (fun o' => Ok (respond o', o')).
 Proof. reflexivity. Qed.
 
-(* the reference on the object agrees with prepare of Model/C19.v *)
-Lemma ref_prepare_respond c i :
-  find_cls (i_cls i) classes = Some c ->
-  Some (rmap respond (ref_prepare c i (ref_obj c i))) = prepare spec_policy i.
+(* the reference on the object agrees with prepare_x of Model/C19.v *)
+Lemma ref_prepare_respond_x c x :
+  find_cls (i_cls (x_in x)) classes = Some c ->
+  Some (rmap respond (ref_prepare_x c x (ref_obj_x c x))) = prepare_x spec_policy x.
 Proof.
-  intros Hf. unfold ref_prepare, prepare. rewrite Hf.
-  destruct (c_empty c) eqn:He; [unfold ref_obj, respond; rewrite He; reflexivity|].
-  destruct (pick_branch (chosen_type i) (p_branches spec_policy)) as [b|] eqn:Hb.
-  - f_equal. destruct (page_text spec_policy b c i); simpl; try reflexivity.
+  intros Hf. unfold ref_prepare_x, prepare_x. cbv zeta. rewrite Hf.
+  destruct (c_empty c) eqn:He; [unfold ref_obj_x, respond; cbv zeta; rewrite He; reflexivity|].
+  destruct (pick_branch (chosen_type (x_in x)) (p_branches spec_policy)) as [b|] eqn:Hb.
+  - f_equal. destruct (page_text_x spec_policy b c x); simpl; try reflexivity.
     destruct (utf8_bytes a); reflexivity.
   - unfold chosen_type in Hb. simpl in Hb.
     repeat match type of Hb with (if ?x then _ else _) = _ => destruct x end; discriminate.
 Qed.
 
-Lemma fresh_ref c i : fresh_like c i (ref_obj c i).
+Lemma fresh_ref_x c x : fresh_like_x c x (ref_obj_x c x).
 Proof.
-  exists (if c_empty c then [] else t_html). unfold set_resp, ref_obj. reflexivity.
+  exists (if c_empty c then [] else kw_ctype (kw_of x)), (if c_empty c then [] else kw_charset (kw_of x)).
+  unfold set_resp, ref_obj_x. reflexivity.
+Qed.
+Lemma fresh_ref c i : fresh_like c i (ref_obj c i).
+Proof. apply fresh_ref_x. Qed.
+
+(* ---- the regenerated program, run on one call, is the specification (with json_formatter=,
+   content_type=, charset= keywords) *)
+Theorem generated_is_spec_x x : model_x x = spec_x x.
+Proof.
+  unfold model_x, spec_x. destruct (find_cls (i_cls (x_in x)) classes) as [c|] eqn:Hf.
+  - rewrite gen_obj_is_model_x, gen_call_is_prepare.
+    rewrite (gen_prepare_is_model_x (fun _ _ => i_offers (x_in x)) c x (ref_obj_x c x) (fresh_ref_x c x) eq_refl).
+    rewrite <- (ref_prepare_respond_x c x Hf).
+    f_equal. destruct (ref_prepare_x c x (ref_obj_x c x)); reflexivity.
+  - unfold prepare_x. cbv zeta. rewrite Hf. reflexivity.
+Qed.
+Theorem generated_is_spec i : model i = spec i.
+Proof. unfold model. rewrite generated_is_spec_x. reflexivity. Qed.
+
+(* ---- the keywords content_type= / charset= never show in the response; without a formatter,
+   and whenever the negotiated form is not JSON, the response is the core specification *)
+Theorem kw_irrelevant i f ck cs : spec_x (mkX i f ck cs) = spec_x (mkX i f None None).
+Proof. reflexivity. Qed.
+Theorem no_formatter_core i ck cs : spec_x (mkX i None ck cs) = spec i.
+Proof. reflexivity. Qed.
+Theorem formatter_only_json x : chosen_type (x_in x) <> t_json -> spec_x x = spec (x_in x).
+Proof.
+  intros Hn. unfold spec_x, spec, prepare_x, prepare. cbv zeta.
+  destruct (find_cls (i_cls (x_in x)) classes) as [c|]; [|reflexivity].
+  destruct (c_empty c); [reflexivity|].
+  destruct (pick_branch (chosen_type (x_in x)) (p_branches spec_policy)) as [b|] eqn:Hb; [|reflexivity].
+  assert (Hin : b = bh \/ b = bp).
+  { cbn [pick_branch p_branches spec_policy b_test] in Hb.
+    destruct (text_eqb (chosen_type (x_in x)) t_html); [injection Hb as <-; left; reflexivity|].
+    destruct (text_eqb (chosen_type (x_in x)) t_json) eqn:E2; [apply text_eqb_eq in E2; contradiction|].
+    injection Hb as <-; right; reflexivity. }
+  f_equal. rewrite page_text_x_unfold, page_text_unfold. unfold page_of_x.
+  destruct (x_fmt x); destruct Hin as [-> | ->]; reflexivity.
 Qed.
 
-(* ---- the regenerated program, run on one call, is the specification *)
-Theorem generated_is_spec i :
-  model i = spec i.
+(* ---- a custom formatter in the JSON form: the body handed to the formatter is the single-pass
+   rendering of the body template (the same text the default formatter puts into "message"); the
+   response is labelled application/json and its body is json.dumps of the formatter's members,
+   ASCII, and reads back (reference RFC 8259 reader) to exactly those members; a formatter that
+   raises yields no response at all *)
+Definition bjx := bj.
+Lemma json_object_ascii kvs : ascii (json_object kvs).
 Proof.
-  unfold model, spec. destruct (find_cls (i_cls i) classes) as [c|] eqn:Hf.
-  - rewrite gen_obj_is_model, gen_call_is_prepare.
-    rewrite (gen_prepare_is_model (fun _ _ => i_offers i) c i (ref_obj c i) (fresh_ref c i) eq_refl).
-    rewrite <- (ref_prepare_respond c i Hf).
-    f_equal. destruct (ref_prepare c i (ref_obj c i)); reflexivity.
-  - unfold prepare. rewrite Hf. reflexivity.
+  unfold json_object. apply ascii_app; [repeat constructor; lia|]. apply ascii_app; [|repeat constructor; lia].
+  induction kvs as [|kv r IH]; [constructor|].
+  destruct r as [|kv2 r']; [apply json_member_ascii|].
+  rewrite json_members_cons2. apply ascii_app; [apply json_member_ascii|].
+  apply ascii_app; [repeat constructor; lia|exact IH].
+Qed.
+
+Theorem formatter_json x c f :
+  find_cls (i_cls (x_in x)) classes = Some c -> c_empty c = false -> chosen_type (x_in x) = t_json ->
+  x_fmt x = Some f ->
+  spec_x x =
+  Some (rbind (substitute (tmpl_of c (x_in x)) (build_args spec_policy bj c (x_in x) (is_custom c (x_in x)))) (fun body =>
+        rbind (apply_fmt f (status_of c) body (c_title c) (i_environ (x_in x)) []) (fun members =>
+        Ok (mkOutput (status_of c) t_json [] (json_object members))))).
+Proof.
+  intros Hf He Hc Hx. unfold spec_x, prepare_x. cbv zeta. rewrite Hf, He, Hc.
+  change (pick_branch t_json (p_branches spec_policy)) with (Some bj). cbv iota beta.
+  rewrite page_text_x_unfold, Hx. f_equal.
+  destruct (substitute _ _) as [body| | |]; try reflexivity. cbn [rbind].
+  unfold page_of_x. cbn [bj b_page b_ctype b_charset_none].
+  destruct (apply_fmt f _ body _ _ []) as [m| | |]; try reflexivity. cbn [rmap rbind].
+  pose proof (json_object_ascii m) as Ha.
+  unfold utf8_bytes. rewrite (ascii_valid _ Ha), (encode_ascii _ Ha). reflexivity.
+Qed.
+
+Theorem formatter_json_valid x c f o :
+  find_cls (i_cls (x_in x)) classes = Some c -> c_empty c = false -> chosen_type (x_in x) = t_json ->
+  x_fmt x = Some f -> spec_x x = Some (Ok o) ->
+  exists body members,
+    substitute (tmpl_of c (x_in x)) (build_args spec_policy bj c (x_in x) (is_custom c (x_in x))) = Ok body /\
+    apply_fmt f (status_of c) body (c_title c) (i_environ (x_in x)) [] = Ok members /\
+    o_ctype o = t_json /\ o_body o = json_object members /\ ascii (o_body o) /\
+    (members <> [] -> forallb kv_valid members = true -> json_read_object (o_body o) = Some members).
+Proof.
+  intros Hf He Hc Hx Ho. rewrite (formatter_json x c f Hf He Hc Hx) in Ho. injection Ho as Ho.
+  apply rbind_ok in Ho as [body [Hb Ho]]. apply rbind_ok in Ho as [m [Hm Ho]]. injection Ho as <-.
+  exists body, m. cbn [o_ctype o_body]. repeat split; try assumption.
+  - apply json_object_ascii.
+  - intros Hne Hv. apply json_object_roundtrip; assumption.
+Qed.
+
+Theorem formatter_error_no_response x c f body :
+  find_cls (i_cls (x_in x)) classes = Some c -> c_empty c = false -> chosen_type (x_in x) = t_json ->
+  x_fmt x = Some f ->
+  substitute (tmpl_of c (x_in x)) (build_args spec_policy bj c (x_in x) (is_custom c (x_in x))) = Ok body ->
+  apply_fmt f (status_of c) body (c_title c) (i_environ (x_in x)) [] = KeyErr ->
+  spec_x x = Some KeyErr.
+Proof.
+  intros Hf He Hc Hx Hb Hm. rewrite (formatter_json x c f Hf He Hc Hx), Hb. cbn [rbind]. rewrite Hm. reflexivity.
 Qed.
 
 (* ------------------------------------------------------------------ histories: one object, several calls *)
@@ -191,63 +317,67 @@ Proof.
   destruct (x <? 128); [discriminate|]. destruct (x <? 2048); [discriminate|]. destruct (x <? 65536); discriminate.
 Qed.
 
-Lemma page_nonempty b c i page :
-  pick_branch (chosen_type i) (p_branches spec_policy) = Some b ->
-  page_text spec_policy b c i = Ok page -> page <> [].
+Lemma page_nonempty_x b c x page :
+  pick_branch (chosen_type (x_in x)) (p_branches spec_policy) = Some b ->
+  page_text_x spec_policy b c x = Ok page -> page <> [].
 Proof.
-  intros Hb Hp. rewrite page_text_unfold in Hp. apply rbind_ok in Hp as [body [_ Hp]].
+  intros Hb Hp. rewrite page_text_x_unfold in Hp. apply rbind_ok in Hp as [body [_ Hp]].
   assert (Hin : b = bh \/ b = bj \/ b = bp).
   { unfold chosen_type in Hb. cbn [pick_branch p_branches spec_policy b_test] in Hb.
     repeat match type of Hb with (if ?x then _ else _) = _ => destruct x end; injection Hb as <-; auto. }
   destruct page_templates_have_text as [Hh Hpl].
-  destruct Hin as [ -> | [ -> | -> ] ]; unfold page_of in Hp; cbn [b_page bh bj bp] in Hp.
+  unfold page_of_x in Hp.
+  destruct Hin as [ -> | [ -> | -> ] ]; destruct (x_fmt x) as [f|]; unfold page_of in Hp; cbn [b_page bh bj bp] in Hp.
   - exact (render_nonempty _ _ _ Hp Hh).
+  - exact (render_nonempty _ _ _ Hp Hh).
+  - apply rmap_ok in Hp as [m [_ ->]]. discriminate.
   - injection Hp as <-. discriminate.
+  - exact (render_nonempty _ _ _ Hp Hpl).
   - exact (render_nonempty _ _ _ Hp Hpl).
 Qed.
 
-Lemma ref_obj_call c i s : ref_obj c (with_call i s) = ref_obj c i.
+Lemma ref_obj_call_x c x s : ref_obj_x c (with_call_x x s) = ref_obj_x c x.
 Proof. reflexivity. Qed.
 
 (* what a rendering call does to the fresh object *)
-Lemma ref_prepare_ok c i o' :
-  ref_prepare c i (ref_obj c i) = Ok o' ->
-  (c_empty c = true /\ o' = ref_obj c i) \/ (c_empty c = false /\ ob_body o' <> []).
+Lemma ref_prepare_ok_x c x o' :
+  ref_prepare_x c x (ref_obj_x c x) = Ok o' ->
+  (c_empty c = true /\ o' = ref_obj_x c x) \/ (c_empty c = false /\ ob_body o' <> []).
 Proof.
-  unfold ref_prepare. destruct (c_empty c) eqn:He.
+  unfold ref_prepare_x. destruct (c_empty c) eqn:He.
   - intros H; injection H as <-. left; auto.
-  - destruct (pick_branch (chosen_type i) (p_branches spec_policy)) as [b|] eqn:Hb.
+  - destruct (pick_branch (chosen_type (x_in x)) (p_branches spec_policy)) as [b|] eqn:Hb.
     + intros H. apply rbind_ok in H as [page [Hp H]]. apply rmap_ok in H as [bytes [Hu ->]].
       right. split; [reflexivity|]. cbn [set_resp ob_body].
-      exact (utf8_nonempty _ _ Hu (page_nonempty b c i page Hb Hp)).
+      exact (utf8_nonempty _ _ Hu (page_nonempty_x b c x page Hb Hp)).
     + unfold chosen_type in Hb. cbn [pick_branch p_branches spec_policy b_test] in Hb.
       repeat match type of Hb with (if ?x then _ else _) = _ => destruct x end; discriminate.
 Qed.
 
-Definition hist_inv (c : cls) (i : input) (o : obj) (done : option output) : Prop :=
-  (done = None /\ o = ref_obj c i) \/ (exists out, done = Some out /\ ob_body o <> [] /\ respond o = out).
+Definition hist_inv_x (c : cls) (x : xinput) (o : obj) (done : option output) : Prop :=
+  (done = None /\ o = ref_obj_x c x) \/ (exists out, done = Some out /\ ob_body o <> [] /\ respond o = out).
 
-Lemma gen_calls_ref c i : find_cls (i_cls i) classes = Some c ->
-  forall l o done, hist_inv c i o done ->
-  map Some (gen_calls o l) = calls spec_policy i done l.
+Lemma gen_calls_ref_x c x : find_cls (i_cls (x_in x)) classes = Some c ->
+  forall l o done, hist_inv_x c x o done ->
+  map Some (gen_calls o l) = calls_g (fun s => prepare_x spec_policy (with_call_x x s)) done l.
 Proof.
   intros Hf. induction l as [|s r IH]; intros o done Hinv; [reflexivity|].
-  cbn [gen_calls calls map].
+  cbn [gen_calls calls_g map].
   destruct Hinv as [ [-> ->] | [out [-> [Hb <-] ] ] ].
   - (* no body yet: this call renders *)
-    assert (Hf' : find_cls (i_cls (with_call i s)) classes = Some c) by exact Hf.
-    pose proof (ref_prepare_respond c (with_call i s) Hf') as Hr. rewrite ref_obj_call in Hr.
+    assert (Hf' : find_cls (i_cls (x_in (with_call_x x s))) classes = Some c) by exact Hf.
+    pose proof (ref_prepare_respond_x c (with_call_x x s) Hf') as Hr. rewrite ref_obj_call_x in Hr.
     rewrite gen_call_is_prepare.
-    pose proof (gen_prepare_is_model (fun _ _ => snd s) c (with_call i s) (ref_obj c i)
-                  (fresh_ref c (with_call i s)) eq_refl) as Hg.
-    change (i_environ (with_call i s)) with (fst s) in Hg. rewrite Hg. clear Hg.
+    pose proof (gen_prepare_is_model_x (fun _ _ => snd s) c (with_call_x x s) (ref_obj_x c x)
+                  (fresh_ref_x c (with_call_x x s)) eq_refl) as Hg.
+    change (i_environ (x_in (with_call_x x s))) with (fst s) in Hg. rewrite Hg. clear Hg.
     cbv zeta. rewrite <- Hr.
-    destruct (ref_prepare c (with_call i s) (ref_obj c i)) as [o'| | |] eqn:E;
+    destruct (ref_prepare_x c (with_call_x x s) (ref_obj_x c x)) as [o'| | |] eqn:E;
       cbn [rbind rmap map]; try (f_equal; apply IH; left; split; reflexivity).
     f_equal. apply IH.
-    pose proof (ref_prepare_ok c (with_call i s)) as Hok. rewrite ref_obj_call in Hok.
+    pose proof (ref_prepare_ok_x c (with_call_x x s)) as Hok. rewrite ref_obj_call_x in Hok.
     destruct (Hok o' E) as [ [He ->] | [He Hne] ].
-    + left. split; [|reflexivity]. unfold stored, respond, ref_obj. cbn [o_body ob_body is_nil]. reflexivity.
+    + left. split; [|reflexivity]. unfold stored, respond, ref_obj_x. cbn [o_body ob_body is_nil]. reflexivity.
     + right. exists (respond o'). split; [|split; [exact Hne|reflexivity]].
       unfold stored. cbn [respond o_body]. destruct (ob_body o'); [congruence|reflexivity].
   - (* a body is stored: every call repeats it *)
@@ -256,14 +386,66 @@ Proof.
 Qed.
 
 (* ---- the regenerated program, threaded through any sequence of calls, is the reference history *)
+Theorem generated_history_is_model_x x l : model_calls_x x l = ref_calls_x x l.
+Proof.
+  unfold model_calls_x, ref_calls_x. destruct (find_cls (i_cls (x_in x)) classes) as [c|] eqn:Hf.
+  - rewrite gen_obj_is_model_x. apply (gen_calls_ref_x c x Hf). left; auto.
+  - induction l as [|s r IH]; [reflexivity|]. cbn [map calls_g].
+    assert (E : prepare_x spec_policy (with_call_x x s) = None).
+    { unfold prepare_x. cbv zeta. change (i_cls (x_in (with_call_x x s))) with (i_cls (x_in x)). rewrite Hf. reflexivity. }
+    cbv zeta. rewrite E. cbn [stored]. f_equal. exact IH.
+Qed.
+
+(* calls of Model/C19.v is calls_g at the core single-call function *)
+Lemma calls_is_calls_g P i l : forall done,
+  calls P i done l = calls_g (fun s => prepare P (with_call i s)) done l.
+Proof. induction l as [|s r IH]; intros done; [reflexivity|]. cbn [calls calls_g]. destruct done; cbv zeta; rewrite IH; reflexivity. Qed.
+
 Theorem generated_history_is_model i l : model_calls i l = ref_calls i l.
 Proof.
-  unfold model_calls, ref_calls. destruct (find_cls (i_cls i) classes) as [c|] eqn:Hf.
-  - rewrite gen_obj_is_model. apply (gen_calls_ref c i Hf). left; auto.
-  - induction l as [|s r IH]; [reflexivity|]. cbn [map calls].
-    assert (E : prepare spec_policy (with_call i s) = None).
-    { unfold prepare. change (i_cls (with_call i s)) with (i_cls i). rewrite Hf. reflexivity. }
-    cbv zeta. rewrite E. cbn [stored]. f_equal. exact IH.
+  unfold model_calls. rewrite generated_history_is_model_x. unfold ref_calls_x, ref_calls.
+  rewrite calls_is_calls_g. reflexivity.
+Qed.
+
+(* the history check, for any single-call function *)
+Lemma history_ok_calls_g prep l : forall done seen,
+  (forall o, done = Some o -> existsb (fun x => is_ok_out x o) seen = true) ->
+  history_ok_from seen (calls_g prep done l) (map prep l) = true.
+Proof.
+  induction l as [|s r IH]; intros done seen Hinv; [reflexivity|].
+  cbn [calls_g map]. destruct done as [o|].
+  - cbn [history_ok_from]. rewrite (existsb_cons_r _ _ _ (Hinv o eq_refl)). cbn [andb].
+    apply IH. intros o' Ho'. injection Ho' as <-. apply existsb_cons_r. apply Hinv. reflexivity.
+  - cbv zeta. set (x := prep s). cbn [history_ok_from].
+    assert (Hhead : match x with
+                    | Some (Ok o) => existsb (fun y => is_ok_out y o) (x :: seen)
+                    | _ => match x with Some (Ok _) => false | _ => true end
+                    end = true).
+    { destruct x as [[o| | |]|]; try reflexivity. cbn [existsb is_ok_out]. rewrite out_eqb_refl. reflexivity. }
+    rewrite Hhead. cbn [andb]. apply IH. intros o Ho.
+    unfold stored in Ho. destruct x as [[o'| | |]|]; try discriminate.
+    destruct (is_nil (o_body o')); [discriminate|]. injection Ho as <-.
+    cbn [existsb is_ok_out]. rewrite out_eqb_refl. reflexivity.
+Qed.
+
+Theorem history_check_generated_x x l : history_ok (model_calls_x x l) (spec_singles_x x l) = true.
+Proof.
+  rewrite generated_history_is_model_x. unfold ref_calls_x, spec_singles_x, history_ok.
+  apply history_ok_calls_g. intros o H; discriminate.
+Qed.
+
+(* every response of a history (with formatter / keywords) is the single-call specification of one
+   of the calls made so far *)
+Theorem history_consistent_generated_x x l k o :
+  nth_error (model_calls_x x l) k = Some (Some (Ok o)) ->
+  exists j s, (j <= k)%nat /\ nth_error l j = Some s /\ model_x (with_call_x x s) = Some (Ok o).
+Proof.
+  intros Hk.
+  destruct (history_ok_sound _ [] _ (history_check_generated_x x l) k o Hk) as [[]|[j [Hj Hn]]].
+  unfold spec_singles_x in Hn. rewrite nth_error_map in Hn.
+  destruct (nth_error l j) as [s|] eqn:Es; [|discriminate].
+  exists j, s. split; [exact Hj|]. split; [exact Es|]. simpl in Hn. injection Hn as Hn.
+  rewrite generated_is_spec_x. exact Hn.
 Qed.
 
 (* the history theorems of Proofs/C19.v, about the regenerated program *)
@@ -278,3 +460,58 @@ Qed.
 
 Corollary history_check_generated i l : history_ok (model_calls i l) (spec_singles i l) = true.
 Proof. rewrite generated_history_is_model. apply history_consistent_b. Qed.
+
+(* ---- non-vacuity: a formatter reading a request header; with the header a JSON response that reads back,
+   without it no response *)
+Definition ex_fmt : fmt := [(k_message, FBody); ([114; 105; 100], FEnv [72; 84; 84; 80; 95; 88; 95; 82; 73; 68])].
+Definition ex_xin (env : list (text * text)) : xinput :=
+  mkX (mkInput n_notfound (Some [60; 97; 62; 36; 123; 98; 114; 125]) None None [] [] env None [t_json])
+      (Some ex_fmt) (Some t_html) None.
+Example ex_formatter_ok :
+  exists o, spec_x (ex_xin [([72; 84; 84; 80; 95; 88; 95; 82; 73; 68], [55])]) = Some (Ok o) /\ o_ctype o = t_json /\
+            exists m, json_read_object (o_body o) = Some [(k_message, m); ([114; 105; 100], [55])].
+Proof. eexists. split; [vm_compute; reflexivity|]. split; [reflexivity|]. eexists. vm_compute. reflexivity. Qed.
+Example ex_formatter_keyerror : spec_x (ex_xin []) = Some KeyErr.
+Proof. vm_compute. reflexivity. Qed.
+
+(* ------------------------------------------------------------------ the plain-text form
+   (no escaping is promised or wanted: text/plain is not interpreted; the statement is the
+   explicit whole response, so every supplied text is there verbatim and exactly once) *)
+Lemma plain_template_tokens : tokenise plain_template = [TRef k_status; TChar 10; TChar 10; TRef k_body].
+Proof. vm_compute. reflexivity. Qed.
+
+Lemma plain_page_render st body :
+  substitute plain_template [(k_status, st); (k_body, body)] = Ok (st ++ [10; 10] ++ body).
+Proof.
+  unfold substitute. rewrite plain_template_tokens.
+  cbn [render lookup text_eqb k_status k_body N.eqb Pos.eqb andb rmap app]. rewrite app_nil_r. reflexivity.
+Qed.
+
+Lemma plain_comment i : html_comment_of bp i = or_empty (i_comment i).
+Proof.
+  unfold html_comment_of. cbn [bp b_cpre b_csuf b_esc b_comment_escaped maybe_esc esc_apply].
+  destruct (or_empty (i_comment i)); [reflexivity|]. cbn [is_nil app]. rewrite app_nil_r. reflexivity.
+Qed.
+
+Lemma plain_body_shape i c :
+  find_cls (i_cls i) classes = Some c -> c_empty c = false -> c_default_tmpl c = true -> i_tmpl i = None ->
+  chosen_type i <> t_html -> chosen_type i <> t_json ->
+  spec i = Some (rmap (mkOutput (status_of c) t_plain cs_utf8)
+    (utf8_bytes (status_of c ++ [10; 10] ++
+                 expl_of c i ++ [10; 10; 10] ++ or_empty (i_detail i) ++ [10] ++ or_empty (i_comment i) ++ [10]))).
+Proof.
+  intros Hf He Hd Hn Hh Hj. unfold spec, prepare. rewrite Hf, He.
+  cbn [pick_branch p_branches spec_policy b_test].
+  destruct (text_eqb (chosen_type i) t_html) eqn:E1; [apply text_eqb_eq in E1; contradiction|].
+  destruct (text_eqb (chosen_type i) t_json) eqn:E2; [apply text_eqb_eq in E2; contradiction|].
+  f_equal. rewrite page_text_unfold. unfold tmpl_of, is_custom. rewrite Hn, Hd, (default_tmpl_text _ c Hf Hd). cbn [negb].
+  change (mkBranch None t_plain false EscNone [10] [] [] true PagePlain) with bp.
+  rewrite build_args_spec, default_body_render. cbn [rbind]. unfold page_of. cbn [bp b_page].
+  rewrite plain_page_render. unfold default_body. rewrite plain_comment.
+  cbn [bp b_esc b_br esc_apply b_ctype b_charset_none rbind].
+  rewrite ?rmap_rbind. apply rbind_cong; [|reflexivity]. f_equal.
+Qed.
+
+Example ex_plain : exists o, spec (mkInput n_notfound (Some [60; 36; 123; 98; 114; 125]) (Some [38]) None [] [] [] None []) = Some (Ok o)
+  /\ o_ctype o = t_plain.
+Proof. eexists. split; [vm_compute; reflexivity|reflexivity]. Qed.
